@@ -13,7 +13,42 @@ pub struct Fake {
     pub log: Vec<u8>,
 }
 
+/// A reader whose next `armed` reads fail with the chosen I/O error before touching the socket
+/// (a slow service, a reset, ...); used to put a fault between a request and its reply.
+pub struct FaultyReader {
+    inner: UnixStream,
+    pub armed: Arc<std::sync::atomic::AtomicU32>,
+    pub kind: Arc<std::sync::atomic::AtomicU32>,
+}
+
+pub const FAULT_KINDS: [std::io::ErrorKind; 4] = [std::io::ErrorKind::TimedOut, std::io::ErrorKind::WouldBlock, std::io::ErrorKind::ConnectionReset, std::io::ErrorKind::Other];
+
+impl Read for FaultyReader {
+    fn read(&mut self, buf: &mut [u8]) -> std::io::Result<usize> {
+        use std::sync::atomic::Ordering::SeqCst;
+        if self.armed.load(SeqCst) > 0 {
+            self.armed.fetch_sub(1, SeqCst);
+            return Err(std::io::Error::new(FAULT_KINDS[self.kind.load(SeqCst) as usize % FAULT_KINDS.len()], "injected read fault"));
+        }
+        self.inner.read(buf)
+    }
+}
+
 impl Fake {
+    /// A fake whose client-side reader can be told to fail: returns the fake, the `armed` counter and the kind selector.
+    pub fn with_faulty_reader() -> (Fake, Arc<std::sync::atomic::AtomicU32>, Arc<std::sync::atomic::AtomicU32>) {
+        let (client, server) = UnixStream::pair().expect("socketpair");
+        let _ = client.set_read_timeout(Some(std::time::Duration::from_secs(2)));
+        let armed = Arc::new(std::sync::atomic::AtomicU32::new(0));
+        let kind = Arc::new(std::sync::atomic::AtomicU32::new(0));
+        let mut c = varlink::Connection::default();
+        let r: Box<dyn Read + Send + Sync> = Box::new(FaultyReader { inner: client.try_clone().expect("clone"), armed: armed.clone(), kind: kind.clone() });
+        c.reader = Some(BufReader::new(r));
+        c.writer = Some(Box::new(client));
+        server.set_nonblocking(true).expect("nonblocking");
+        (Fake { conn: Arc::new(RwLock::new(c)), server, log: vec![] }, armed, kind)
+    }
+
     pub fn new() -> Fake {
         let (client, server) = UnixStream::pair().expect("socketpair");
         // every reply is queued before the client calls, so a client that waits at all is misbehaving:
